@@ -61,18 +61,16 @@ fn vecdrop_h<T: 'static>(drop: bool) {
 }
 
 /// `fixed`: the builder creates fixed-capacity memory of `tcap` elements (like Stack / StackN)
-fn clone_h<T: 'static>(fixed: bool) {
+fn clone_h<T: 'static>(fixed: bool, drop: bool) {
     ghost_init();
     let (len, cap) = sym_state();
     let tcap = any_narrow();
     kani::assume(tcap <= CAPMAX);
     if fixed {
         kani::assume(len <= tcap); // the contents fit the target
-    } else {
-        kani::assume(tcap == 0 || tcap == cap);
     }
     g().next_build_cap = tcap;
-    let v = unsafe { mk_vec::<dyn Cloneable, T>(0, len, cap, fixed, true) };
+    let v = unsafe { mk_vec::<dyn Cloneable, T>(0, len, cap, fixed, drop) };
     reg(&v, 0);
     let esz = size_of::<T>();
     let has_w = len > 0;
@@ -213,6 +211,21 @@ fn new_in_h<T: 'static>() {
     kani::assert(v.element_drop().is_some() == core::mem::needs_drop::<T>(), "new_in: a destructor is recorded exactly for types with drop glue");
     kani::cover!(true, "REACHED");
     core::mem::forget(v);
+}
+
+/// reserve / reserve_exact with `len + n` not representable: the call cannot return (and not because an
+/// overflow check happens to be compiled in)
+fn reserve_overflow_h<T: 'static>(exact: bool) {
+    ghost_init();
+    let (len, cap) = sym_state();
+    kani::assume(len >= 1);
+    let mut v = unsafe { mk_vec::<dyn None, T>(0, len, cap, false, true) };
+    reg(&v, 0);
+    let n: usize = kani::any();
+    kani::assume(n > usize::MAX - len);
+    g().armed = true;
+    if exact { v.reserve_exact(n) } else { v.reserve(n) }
+    kani::cover!(true, "RETURNED");
 }
 
 include!("k2_misc.inst.rs");
